@@ -46,8 +46,11 @@ slip or 'simplification' a maintainer could commit: a stale variable, an off-by-
 sign in a rarely taken branch, a cache keyed too coarsely, state carried over or reset wrongly, a unit slip, a comparison
 made exclusive, two sites that each look fine alone) such that, for each change:
  (1) the library still imports and the EXISTING test suite still passes with the change
-     (run: cd {wt} && /venv/bin/python -m pytest -q -p no:cacheprovider --timeout=900 -x -n 4 tests  - it takes 2-3 minutes;
-     one test, testRemoteData, needs the network and fails regardless - ignore it);
+     (run: cd {wt} && PYTHONPATH={wt}/src /venv/bin/python -m pytest -q -p no:cacheprovider --timeout=900 -n 4 tests
+     - PYTHONPATH is required because /venv has an editable install of /repo; it takes 3-10 minutes on the shared machine.
+     A few tests fail or fail to collect on the UNCHANGED tree as well (testRemoteData needs the network,
+     tests/common/test_config.py, testCalculateMetric, testEntryPoint): "passes" means the same set as a clean-tree run,
+     nothing new. Never use pkill/killall with a pattern - other agents run the same commands; kill by PID only);
  (2) the change BREAKS the property above (a clause of its statement becomes false for some input/schedule/history);
  (3) it needs something SPECIFIC to manifest - a particular interleaving or completion order, a fault at a particular
      point, a multi-step sequence of operations, an unusual but legal input or configuration, or two cooperating sites -
